@@ -1,4 +1,5 @@
 import Generated.CoreAssign
+import Proofs.PyNorm
 import Model.Assign
 
 set_option linter.unusedSimpArgs false
@@ -58,9 +59,7 @@ theorem firstExc_cons (a : Py.V) (l : List Py.V) (ha : notExc a = true) :
 
 /-- normalisation of a generated core applied to embedded values -/
 macro "sv_norm" : tactic => `(tactic|
-  simp [Generated.Assign.Equality._set_variable_if, setVariableIf, outRes, Py.cond, Py.and_, Py.or_, Py.not_,
-      Py.is_, Py.isnot, Py.strict2, Py.isb, Py.truthy, truthy, Py.ret, Py.eff, Py.ge, Py.le, Py.cmp, Py.num?, ge?, le?, emb,
-      firstExc_cons, Py.firstExc, *])
+  simp [Generated.Assign.Equality._set_variable_if, setVariableIf, outRes, py_norm, truthy, ge?, le?, emb, firstExc_cons, *])
 
 set_option maxHeartbeats 1600000 in
 theorem set_variable_if_bridge (q : Quals) (ret : Bool) (cur y : Val) (dm lm : Bool) (name tracking : Py.V)
@@ -140,29 +139,29 @@ theorem latch_and_onchange_bridge (q : Quals) (ret : Bool) (cur y : Val) (dm lm 
   simp only [hdm, Py.letv, hsv, bind_outRes]
   cases cur with
   | none => cases y <;> cases hl : q.latch <;> cases ho : q.onchange <;> cases dm <;> cases ret <;>
-      simp [Py.cond, Py.ne, Py.or_, Py.is_, Py.not_, Py.truthy, outRes, Py.ret, Py.strict2, Py.isb, emb, Py.eqb, Py.num?, *] <;>
+      simp [py_norm, outRes, emb, *] <;>
       (try split) <;> simp_all [outRes]
   | int a =>
     cases y with
     | none => cases hl : q.latch <;> cases ho : q.onchange <;> cases dm <;> cases ret <;>
-      simp [Py.cond, Py.ne, Py.or_, Py.is_, Py.not_, Py.truthy, outRes, Py.ret, Py.strict2, Py.isb, emb, Py.eqb, Py.num?, *] <;>
+      simp [py_norm, outRes, emb, *] <;>
       (try split) <;> simp_all [outRes]
     | str b => cases hl : q.latch <;> cases ho : q.onchange <;> cases dm <;> cases ret <;>
-      simp [Py.cond, Py.ne, Py.or_, Py.is_, Py.not_, Py.truthy, outRes, Py.ret, Py.strict2, Py.isb, emb, Py.eqb, Py.num?, *] <;>
+      simp [py_norm, outRes, emb, *] <;>
       (try split) <;> simp_all [outRes]
     | int b => rcases Decidable.em (a = b) with rfl | hab <;> cases hl : q.latch <;> cases ho : q.onchange <;> cases dm <;> cases ret <;>
-      simp [Py.cond, Py.ne, Py.or_, Py.is_, Py.not_, Py.truthy, outRes, Py.ret, Py.strict2, Py.isb, emb, Py.eqb, Py.num?, *] <;>
+      simp [py_norm, outRes, emb, *] <;>
       (try split) <;> simp_all [outRes]
   | str a =>
     cases y with
     | none => cases hl : q.latch <;> cases ho : q.onchange <;> cases dm <;> cases ret <;>
-      simp [Py.cond, Py.ne, Py.or_, Py.is_, Py.not_, Py.truthy, outRes, Py.ret, Py.strict2, Py.isb, emb, Py.eqb, Py.num?, *] <;>
+      simp [py_norm, outRes, emb, *] <;>
       (try split) <;> simp_all [outRes]
     | int b => cases hl : q.latch <;> cases ho : q.onchange <;> cases dm <;> cases ret <;>
-      simp [Py.cond, Py.ne, Py.or_, Py.is_, Py.not_, Py.truthy, outRes, Py.ret, Py.strict2, Py.isb, emb, Py.eqb, Py.num?, *] <;>
+      simp [py_norm, outRes, emb, *] <;>
       (try split) <;> simp_all [outRes]
     | str b => rcases Decidable.em (a = b) with rfl | hab <;> cases hl : q.latch <;> cases ho : q.onchange <;> cases dm <;> cases ret <;>
-      simp [Py.cond, Py.ne, Py.or_, Py.is_, Py.not_, Py.truthy, outRes, Py.ret, Py.strict2, Py.isb, emb, Py.eqb, Py.num?, *] <;>
+      simp [py_norm, outRes, emb, *] <;>
       (try split) <;> simp_all [outRes]
 
 theorem asbool_emb (y : Val) : Py.asbool (emb y) = Py.V.bool (asbool y) := by
@@ -202,8 +201,7 @@ theorem do_assignment_bridge (q : Quals) (cur y : Val) (lmArg : Option Bool) (dm
   generalize latchAndOnchange q dm dm cur y = o2
   obtain ⟨onmatch, latch, onchange, increase, decrease, notnone, asb, nocontrib⟩ := q
   rcases lmArg with _ | (_ | _) <;> cases onmatch <;> cases latch <;> cases onchange <;> cases asb <;> cases nocontrib <;> cases lm <;> cases dm <;>
-    simp [optBool, lmSeen, Py.cond, Py.or_, Py.not_, Py.eq, Py.is_, Py.isb, Py.strict2, Py.eqb, Py.num?, Py.truthy, Py.val, Py.ret,
-      Py.isinstance_bool, outRes, letv_bool] <;>
+    simp [optBool, lmSeen, py_norm, outRes] <;>
     (try (cases o1 with
       | typeError => simp [outRes]
       | ok w vote => cases w <;> cases vote <;> simp [outRes])) <;>
